@@ -233,7 +233,7 @@ def required_labels(tier):
 
 
 def phases(tier, seed):
-    n = 9600 if tier == 'quick' else 32000
+    n = 9600 if tier == 'quick' else 200000
     return [
         Enum('per-symbol-boundaries', lambda: boundary_cases(tier), exhaustive=False,
              note='k x per-symbol capacity -1/0/+1 characters for versions x levels x modes'),
